@@ -55,6 +55,8 @@ func TestC09(t *testing.T) {
 		if st.hung {
 			cl = append(cl, "inconclusive-slow-call")
 			rec.Add("inconclusive", 1)
+			rec.Note(st.slowInfo)
+			saveJSON("VERIF_SLOWCASE", c)
 		}
 		nt := lockPath && st.opsAfterFault > 0
 		rec.Case(evid.FP(c), nt, cl...)
